@@ -184,7 +184,16 @@ func main() {
 
 	// replay mode: one child, one case
 	if replay != "" {
+		if abs, err := filepath.Abs(replay); err == nil {
+			replay = abs
+		}
 		res, crashed := runChild(id, cfg, vmon, work, tier, seed, 0, 1, replay)
+		for _, v := range crashed {
+			if v.Signature == "infrastructure" {
+				fmt.Println(v.Detail)
+				inconclusiveExit(id, "the replay could not be run", exit)
+			}
+		}
 		n := 0
 		for _, r := range res {
 			n += len(r.Violations)
@@ -501,6 +510,22 @@ func runChild(id string, cfg propCfg, vmon, work, tier string, seed uint64, batc
 	}
 	results = nil // a partial result of a crashed child is not counted
 	switch {
+	case strings.Contains(logs, "HANG-VERDICT: endless"):
+		// one case ran for more than 10^4 times the median case time; confirm by
+		// re-running that case alone in a fresh process before calling it a violation
+		if replay == "" && string(caseJSON) != "null" {
+			rp := filepath.Join(cdir, "endless-replay.json")
+			b, _ := json.Marshal(map[string]interface{}{"case": caseJSON})
+			os.WriteFile(rp, b, 0644)
+			_, again := runChild(id, cfg, vmon, filepath.Join(work, "confirm"), tier, seed, batch, nbatch, rp)
+			for _, v := range again {
+				if v.Signature == "hang" {
+					return results, []violation{{Signature: "hang", Detail: "a single case did not return within 60 s, twice (second time alone in a fresh process)\n" + tail, Case: caseJSON}}
+				}
+			}
+			return results, []violation{{Signature: "infrastructure", Detail: "a case exceeded its watchdog once but returned when re-run alone; inconclusive\n" + tail}}
+		}
+		return results, []violation{{Signature: "hang", Detail: "a single case did not return within 60 s\n" + tail, Case: caseJSON}}
 	case timedOut:
 		if strings.Contains(logs, "HANG-VERDICT: deadlock") {
 			return results, []violation{{Signature: "deadlock", Detail: "monitor child hung with every repository goroutine blocked\n" + tail, Case: caseJSON}}
